@@ -7,7 +7,7 @@ mode; types/WHO for serialisation of concurrent senders.
 import json, os, re
 from ..core import callee_of, callee_names, is_call_to, unwrap, receiver_root, dominating_edges, fold
 from ..ranges import canon
-from ..families import describe, guard_flow, awaited_guard_start
+from ..families import describe, guard_flow, awaited_guard_start, bodies_of_fn
 from ..wire import success_sequences, prim_of, _val
 
 CONN = 'edp_client::connection::Connection::'
@@ -105,6 +105,103 @@ def param_of(B, op):
     if base is not None and base[0] == 'agg' and base[1].get('ops'):
         return param_of(B, base[1]['ops'][0])
     return None
+
+
+class _Unknown(Exception):
+    pass
+
+
+def _ev_bool(P, B, op, scen, depth=0):
+    """value of a bool operand under a scenario (negotiated: 'some'|'none', has: bool) for the framing-mode decision;
+    understands !, DistributionFlags::has(DIST_HDR_ATOM_CACHE), Option::map / map_or / unwrap_or / is_some_and, as_ref & co,
+    negotiated_flags(), constants, and bool-returning helpers of Connection.  Anything else raises _Unknown."""
+    if depth > 8:
+        raise _Unknown('depth')
+    if op.get('k') == 'c':
+        if 'v' in op:
+            return bool(op['v'])
+        raise _Unknown('const')
+    src, neg = B.bool_source(op)
+    return _ev_src(P, B, src, scen, depth) != neg
+
+
+def _ev_src(P, B, src, scen, depth):
+    if src[0] == 'other':
+        cur = src[1]
+        if cur.get('k') == 'c' and 'v' in cur:
+            return bool(cur['v'])
+        raise _Unknown('operand %s' % (cur,))
+    if src[0] == 'rv':
+        rv = src[2]
+        if rv['k'] == 'use' and rv['op'].get('k') == 'c' and 'v' in rv['op']:
+            return bool(rv['op']['v'])
+        raise _Unknown('rvalue %s' % rv['k'])
+    if src[0] != 'call':
+        raise _Unknown(src[0])
+    t = src[2]
+    nm = callee_of(t)[0] or ''
+    last = nm.rsplit('::', 1)[-1]
+    if nm.endswith('DistributionFlags::has') or nm.endswith('DistributionFlags::contains'):
+        a = str(B.origin(t['args'][1])) + str(t['args'][1])
+        if 'DIST_HDR_ATOM_CACHE' not in a:
+            raise _Unknown('other flag')
+        return scen[1]
+    if nm.startswith('core::option::Option') and last == 'unwrap_or':
+        o = _ev_opt(P, B, t['args'][0], scen, depth + 1)
+        return o[1] if o[0] == 'some' else _ev_bool(P, B, t['args'][1], scen, depth + 1)
+    if nm.startswith('core::option::Option') and last == 'unwrap_or_default':
+        o = _ev_opt(P, B, t['args'][0], scen, depth + 1)
+        return o[1] if o[0] == 'some' else False
+    if nm.startswith('core::option::Option') and last in ('map_or', 'is_some_and', 'is_none_or'):
+        o = _ev_opt_raw(P, B, t['args'][0], scen, depth + 1)
+        clo = t['args'][-1]
+        if o == 'none':
+            return {'map_or': None, 'is_some_and': False, 'is_none_or': True}[last] if last != 'map_or' else _ev_bool(P, B, t['args'][1], scen, depth + 1)
+        return _ev_closure(P, B, clo, scen, depth + 1)
+    if nm in P.F.bodies and P.F.bodies[nm]['locals'][0]['ty'] == 'bool':
+        HB = P.B(nm)
+        return _ev_bool(P, HB, {'k': 'cp', 'pl': {'l': 0}}, scen, depth + 1)
+    raise _Unknown(nm)
+
+
+def _ev_closure(P, B, clo_op, scen, depth):
+    o = B.origin(clo_op)
+    if o[0] == 'agg' and o[1].get('ak') == 'closure':
+        CB = P.B(o[1]['def'])
+        return _ev_bool(P, CB, {'k': 'cp', 'pl': {'l': 0}}, scen, depth + 1)
+    raise _Unknown('closure')
+
+
+def _ev_opt_raw(P, B, op, scen, depth):
+    """'some' | 'none' for an Option<flags> operand"""
+    o = B.origin(op)
+    if o[0] == 'call':
+        nm = str(o[1])
+        last = nm.rsplit('::', 1)[-1]
+        t = B.blocks[o[2]]['t']
+        if nm.endswith('negotiated_flags'):
+            return scen[0]
+        if nm.startswith('core::option::Option') and last in ('as_ref', 'copied', 'cloned', 'as_deref', 'as_mut'):
+            return _ev_opt_raw(P, B, t['args'][0], scen, depth + 1)
+    txt = str(o)
+    if 'negotiated_flags' in txt and 'config' not in txt:
+        return scen[0]
+    raise _Unknown('option %s' % (o[:2],))
+
+
+def _ev_opt(P, B, op, scen, depth):
+    """('some', bool) | ('none',) for an Option<bool> operand"""
+    o = B.origin(op)
+    if o[0] == 'call':
+        nm = str(o[1])
+        last = nm.rsplit('::', 1)[-1]
+        t = B.blocks[o[2]]['t']
+        if nm.startswith('core::option::Option') and last == 'map':
+            inner = _ev_opt_raw(P, B, t['args'][0], scen, depth + 1)
+            if inner == 'none':
+                return ('none',)
+            return ('some', _ev_closure(P, B, t['args'][1], scen, depth + 1))
+    raise _Unknown('option<bool> %s' % (o[:2],))
 
 
 def run(ctx):
@@ -239,25 +336,79 @@ def run(ctx):
                 ctx.bad('C07.3-frame-layout', k, 'no success path writes the expected %s frame; other layouts found: %s' % (k, shapes['other'][:2]), ctx.where(B), key='WIRE:%ssend_control_message:%s' % (CONN, k))
         if shapes['other']:
             ctx.bad('C07.3-frame-layout', 'unexpected', 'a success path writes a frame of another shape: %s' % shapes['other'][:2], ctx.where(B), key='WIRE:%ssend_control_message:unexpected-shape' % CONN)
-        # mode selection
-        sel = False
-        for bb, t in B.calls():
-            if any(n.endswith('DistributionFlags::has') for n in callee_names(t)):
-                pass
-        for p_ in ctx.F.bodies:
-            if p_.startswith(CONN + 'send_control_message::{closure#0}::{closure'):
-                CB = P.B(p_)
-                for bb, t in CB.calls():
-                    if any(n.endswith('DistributionFlags::has') for n in callee_names(t)):
-                        a = str(CB.origin(t['args'][1])) + str(t['args'][1])
+        # mode selection: whichever function (this one, its closures, a helper of Connection it calls) tests the DIST_HDR_ATOM_CACHE
+        # bit must test it on the negotiated set
+        tests = []
+
+        def scan(path, depth):
+            for XB in bodies_of_fn(P, path):
+                for bb, t in XB.calls():
+                    ns = callee_names(t)
+                    if any(n.endswith('DistributionFlags::has') or n.endswith('DistributionFlags::contains') for n in ns) and len(t['args']) > 1:
+                        a = str(XB.origin(t['args'][1])) + str(t['args'][1])
                         if 'DIST_HDR_ATOM_CACHE' in a:
-                            sel = True
-        neg = any(is_call_to(t, CONN + 'negotiated_flags') for bb, t in B.calls())
-        if sel and neg:
-            ctx.ok('C07.3-frame-layout', 'mode-selection', 'pass-through unless the negotiated flags contain DIST_HDR_ATOM_CACHE', ctx.where(B))
+                            recv = str(canon(XB, t['args'][0])) + ' ' + ' '.join(str(x) for x in operand_chain_(XB, t['args'][0]))
+                            # a closure parameter: where does the closure get its argument from?  (Option::map on negotiated_flags())
+                            src = 'negotiated' if 'negotiated_flags' in recv else ('configured' if "'config'" in recv or 'config' in recv and 'flags' in recv else 'param')
+                            tests.append((XB, bb, src))
+                    elif depth < 2:
+                        for n in ns:
+                            if n.startswith(CONN) and n != path and n in ctx.F.bodies and not n.endswith('negotiated_flags'):
+                                scan(n, depth + 1)
+        from ..families import operand_chain as operand_chain_
+        scan(CONN + 'send_control_message', 0)
+        # for tests inside a closure (`.map(|f| f.has(..))`) the receiver is the closure's parameter: the value mapped over decides
+        resolved = []
+        for XB, bb, src in tests:
+            if src != 'param':
+                resolved.append(src)
+                continue
+            owner = XB.path.rsplit('::{closure', 1)[0]
+            found = None
+            for OB in bodies_of_fn(P, owner):
+                if OB.path == XB.path:
+                    continue
+                for ob, ot in OB.calls():
+                    if found is None and any(a.get('k') in ('cp', 'mv') and ("'def': '%s'" % XB.path) in str(OB.origin(a)) for a in ot['args']):
+                        recv = str(canon(OB, ot['args'][0])) + ' ' + ' '.join(str(x) for x in operand_chain_(OB, ot['args'][0]))
+                        found = 'negotiated' if 'negotiated_flags' in recv else ('configured' if 'config' in recv else 'other')
+            resolved.append(found or 'other')
+        if resolved and all(r == 'negotiated' for r in resolved):
+            ctx.ok('C07.3-frame-layout', 'mode-selection', 'pass-through unless the negotiated flags contain DIST_HDR_ATOM_CACHE (%d test site(s))' % len(resolved), ctx.where(B))
         else:
-            ctx.bad('C07.3-frame-layout', 'mode-selection', 'framing mode is not selected by negotiated_flags().has(DIST_HDR_ATOM_CACHE) (flag test %s, negotiated %s)' % (sel, neg), ctx.where(B),
+            ctx.bad('C07.3-frame-layout', 'mode-selection', 'framing mode is not selected by a test of DIST_HDR_ATOM_CACHE on the negotiated flags (test sites found: %s)' % (resolved or 'none'), ctx.where(B),
                     key='PROV:%ssend_control_message:mode-selection' % CONN)
+
+        # ... and the right way round: pass-through frames exactly when the header mode was NOT negotiated
+        from ..wire import prim_of as _prim7, _val as _val7
+        marks = set(bb for bb, t in B.calls() if _prim7(t) is not None and _prim7(t)[0] == 'w' and len(t['args']) > 1 and _val7(B, t['args'][1]) == 112)
+        decided = False
+        for sw in sorted(B.live_blocks()):
+            e = B.switch_bool_edges(sw)
+            if not e or not marks:
+                continue
+            rt, rf = B.reachable(e[1]), B.reachable(e[2])
+            in_t, in_f = bool(marks & rt), bool(marks & rf)
+            if in_t == in_f:
+                continue
+            try:
+                vals = {sc: _ev_src(P, B, e[0], sc, 0) for sc in (('some', True), ('some', False), ('none', False))}
+            except _Unknown as ex:
+                continue
+            decided = True
+            pt = {sc: (v if in_t else not v) for sc, v in vals.items()}
+            # (what happens when nothing was negotiated is immaterial: the state gate fails every operation before the handshake)
+            want = {('some', True): False, ('some', False): True}
+            wrong = [sc for sc in want if pt[sc] != want[sc]]
+            if wrong:
+                ctx.bad('C07.3-frame-layout', 'mode-polarity', 'the pass-through frame (marker 112) is written when %s, the distribution-header frame otherwise: the two modes are exchanged'
+                        % ' / '.join('the negotiated flags %s DIST_HDR_ATOM_CACHE' % ('contain' if sc[1] else 'lack') if sc[0] == 'some' else 'nothing was negotiated' for sc in want if pt[sc]),
+                        ctx.where(B, sw), key='PROV:%ssend_control_message:mode-polarity' % CONN)
+            else:
+                ctx.ok('C07.3-frame-layout', 'mode-polarity', 'marker 112 is written iff DIST_HDR_ATOM_CACHE was not negotiated (evaluated for flag present / absent)', ctx.where(B, sw))
+            break
+        if not decided:
+            ctx.undecided('C07.3-frame-layout', 'mode-polarity', 'the condition that selects the framing mode could not be evaluated', ctx.where(B))
 
     # ---------------- clause 4: atomicity under concurrency ----------------------------------------------------------
     ctx.rule('C07.4-exclusive-writer', 'the write half is reachable only through &mut Connection, connections are shared as Arc<tokio::sync::Mutex<Connection>>, and every Node operation holds the guard across the awaited send', floor=8)
